@@ -27,8 +27,38 @@ import (
 )
 
 type Replay struct {
-	Spec   *cg.Spec `json:"spec"`
-	Height int      `json:"height"` // stop after this height (0 = whole chain)
+	Spec     *cg.Spec `json:"spec"`
+	Height   int      `json:"height"`             // stop after this height (0 = whole chain)
+	Scenario string   `json:"scenario,omitempty"` // a directed scenario instead of a generated chain
+}
+
+// scoreZeroScenario replays, on the real packer and consensus, the PoS corner the Coq model exhibits
+// (Properties/C01.v pos_score_zero_block_rejected): n equal-weight validators (n > 10000, proposer limit raised to n),
+// every one but the proposer misses its slot, so online weight x 10000 < total weight, the scheduler's score rounds to 0,
+// the packed block does not raise the total score and validators reject it.
+func scoreZeroScenario(ctx *hx.Ctx) {
+	const n = 10001
+	spec := &cg.Spec{Seed: 7, PoS: true, NAuth: n, Blocks: 1, GenesisGL: 10_000_000, MBP: n}
+	c, err := cg.New(spec)
+	if err != nil {
+		hx.Fatal("score-zero scenario: %v", err)
+	}
+	defer c.Close()
+	parent := c.Best
+	st, err := c.Pack(parent, 0, parent.Header.Timestamp()+uint64(n+2)*cg.Interval, nil, false, nil, 0)
+	if err != nil {
+		ctx.Cov.Count("scenario:pos-score-zero:packer-refuses")
+		return
+	}
+	h := st.Block.Header()
+	v := process(c.Cold(), parent, st.Block, h.Timestamp(), 0)
+	ctx.Cov.Case("scenario:pos-score-zero", true, nil)
+	ctx.Cov.Count(fmt.Sprintf("scenario:pos-score-zero:score=%d:%s", h.TotalScore()-parent.Header.TotalScore(), v.class))
+	if v.class != "accept" {
+		ctx.Violation("pos-score-zero:validator-rejects-packed-block", fmt.Sprintf("PoS, %d equal-weight validators, all but the proposer offline: "+
+			"the real packer produces a block with total score %d = the parent's (score 0) and the real validator rejects it: %s [%s]",
+			n, h.TotalScore(), v.class, v.msg), Replay{Spec: spec, Scenario: "pos-score-zero"}, true)
+	}
 }
 
 type verdict struct {
@@ -141,7 +171,7 @@ func runChain(ctx *hx.Ctx, spec *cg.Spec, stop int, withOracle bool) {
 	lastN := -1
 	lastKind := ""
 	fail := func(class, msg string, height int, found bool) {
-		ctx.Violation(class, msg, Replay{spec, height}, found)
+		ctx.Violation(class, msg, Replay{Spec: spec, Height: height}, found)
 	}
 	for hgt := 1; hgt <= spec.Blocks && (stop == 0 || hgt <= stop); hgt++ {
 		st, err := c.Next()
@@ -360,7 +390,11 @@ func main() {
 		if err := json.Unmarshal(b, &doc); err != nil || doc.Replay == nil || doc.Replay.Spec == nil {
 			hx.Fatal("bad replay file: %v", err)
 		}
-		runChain(ctx, doc.Replay.Spec, doc.Replay.Height, true)
+		if doc.Replay.Scenario == "pos-score-zero" {
+			scoreZeroScenario(ctx)
+		} else {
+			runChain(ctx, doc.Replay.Spec, doc.Replay.Height, true)
+		}
 		ctx.Finish("replay", assumptions)
 	}
 	if dir := os.Getenv("VERIF_CORPUS"); dir != "" {
@@ -380,6 +414,7 @@ func main() {
 			}
 		}
 	}
+	scoreZeroScenario(ctx)
 	r := hx.NewRand(ctx.Seed)
 	n := ctx.Scale(360, 3000)
 	for i := 0; i < n && len(ctx.Violations) == 0; i++ {
